@@ -286,6 +286,16 @@ def main():
                                    uf_env=uf_env, rel=1e-9)
     P.crosscheck(pts, worst, cov, len(paths_gen))
 
+    if P.tier == 'thorough':
+        # the specification's Krueger tables are re-derived from first principles and must equal the cached ones
+        import subprocess, sys as _sys, json as _json, os as _os
+        out_ = _os.path.join(_os.environ.get('VERIF_SCRATCH', '/var/tmp'), 'kruger_rederived.json')
+        spec_dir = _os.path.join(_os.path.dirname(_os.path.dirname(_os.path.abspath(__file__))), 'spec')
+        rr = subprocess.run([_sys.executable, _os.path.join(spec_dir, 'kruger_derive.py'), out_], capture_output=True, text=True, timeout=1800)
+        same = rr.returncode == 0 and _json.load(open(out_)) == _json.load(open(_os.path.join(spec_dir, 'kruger_n8.json')))
+        if not same:
+            raise S.EngineError('specification self-check failed: re-derived Krueger series differ from spec/kruger_n8.json: %s' % rr.stderr[-300:])
+        P.notes.append('thorough: Krueger alpha/beta/rectifying-radius series re-derived from first principles (spec/kruger_derive.py) and equal to the cached tables')
     # ---------------------------------------------------------------- the object API named as an observation point (props/coordlib.py)
     from . import coordlib
     m2 = E.load_repo(tuple(ALL) + ('geodepy.coord',))
